@@ -55,10 +55,10 @@ TRIVIAL_TAGS = {"obs-outside", "obs-callback", "obs-in-task", "future-setres", "
 # generation
 
 ENV_W = [("step", 40), ("create", 9), ("newfut", 3), ("setres", 6), ("setexc", 3), ("cancelfut", 3),
-         ("addcb", 2), ("cancel", 7), ("cscancel", 6), ("cscb", 2), ("throw", 9), ("nocancel", 4), ("pause", 4)]
-OP_W = [("s", 18), ("w", 24), ("y", 3), ("bad", 2), ("i", 9), ("a", 34), ("ret", 2), ("raise", 2)]
+         ("addcb", 2), ("cancel", 7), ("cscancel", 6), ("cscb", 2), ("throw", 9), ("nocancel", 4), ("throwcls", 3), ("iterobs", 5), ("pause", 4)]
+OP_W = [("s", 18), ("w", 24), ("y", 3), ("bad", 2), ("i", 9), ("icls", 2), ("a", 34), ("ret", 2), ("raise", 2)]
 INNER_W = [("create", 5), ("newfut", 3), ("setres", 6), ("setexc", 2), ("cancelfut", 3), ("addcb", 1),
-           ("cancel", 8), ("cscancel", 6), ("cscb", 1), ("throw", 10), ("nocancel", 3), ("obs", 6)]
+           ("cancel", 8), ("cscancel", 6), ("cscb", 1), ("throw", 10), ("nocancel", 3), ("throwcls", 3), ("iterobs", 4), ("obs", 6)]
 
 
 def pick(rng, table):
@@ -81,6 +81,10 @@ def gen_action(rng, kind, depth):
         return ["throw", rng.randrange(6), int(rng.random() < 0.5)]
     if kind == "nocancel":
         return ["nocancel", rng.randrange(6), int(rng.random() < 0.75)]
+    if kind == "throwcls":
+        return ["throwcls", rng.randrange(6), int(rng.random() < 0.5)]
+    if kind == "iterobs":
+        return ["iterobs", rng.randint(1, 3), int(rng.random() < 0.5)]
     return [kind]
 
 
@@ -93,6 +97,8 @@ def gen_prog(rng, depth=0):
             prog.append([k, rng.randrange(6)])
         elif k == "i":
             prog.append(["i", rng.randrange(6), int(rng.random() < 0.5)])
+        elif k == "icls":
+            prog.append(["icls", rng.randrange(6), int(rng.random() < 0.5)])
         elif k == "a":
             ik = pick(rng, INNER_W)
             if ik == "create" and depth >= 2:
